@@ -913,6 +913,9 @@ size_t derOIDDec(char* oid, size_t* len, const octet der[], size_t count)
 			val = 0;
 		}
 	}
+	// пустой идентификатор? незавершенный sid?
+	if (d1 == 3 || (der[l - 1] & 128) != 0)
+		return SIZE_MAX;
 	// очистка и выход
 	d1 = val = 0, pos = l = 0;
 	oid ? oid[oid_len] = '\0' : oid_len;
@@ -977,6 +980,9 @@ size_t derOIDDec2(const octet der[], size_t count, const char* oid)
 			oid += oid_delta, val = 0;
 		}
 	}
+	// пустой идентификатор? незавершенный sid?
+	if (d1 == 3 || (der[len - 1] & 128) != 0)
+		return SIZE_MAX;
 	// очистка и выход
 	d1 = val = 0, pos = len = 0;
 	if (*oid != '\0')
